@@ -277,11 +277,11 @@ var All = []*Prop{
 	},
 	{
 		ID:    "C04",
-		Rules: []*core.Rule{rules.SetOwnGuard, rules.OverrideClosure, rules.LazyOrder, rules.PropCounters, rules.KeyKindAgree, rules.CowNames, rules.ElemCount, rules.TruncAgree, rules.RawResize, rules.KindFlip},
+		Rules: []*core.Rule{rules.SetOwnGuard, rules.OverrideClosure, rules.LazyOrder, rules.PropCounters, rules.KeyKindAgree, rules.CowNames, rules.ElemCount, rules.TruncAgree, rules.RawResize, rules.KindFlip, rules.LazyNames},
 		Explanation: "R-SETOWNGUARD (OrdinarySet belief, sibling contradiction rule): in every function carrying the Receiver of a [[Set]] (a `receiver Value` parameter), each X.self.setOwn{Str,Idx,Sym} call is control-dependent on receiver == X for the same SSA value X. " +
 			"R-OVERRIDECLOSURE: from go/types method sets, for each of the ~50 object kinds and each key kind K, if getOwnProp<K> resolves outside baseObject (the kind answers [[GetOwnProperty]] from custom storage) then get/hasOwnProperty/delete/defineOwnProperty/setOwn/setForeign/hasProperty<K> and the matching enumerators also resolve outside baseObject, or the baseObject version provably only dispatches back through o.val.self to overridden methods, or the (kind, method) pair is an audited table exception. " +
 			"Key-order bookkeeping (index keys are moved to the front lazily): R-LAZYORDER - every read of idxPropCount outside the bookkeeping is dominated by ensurePropOrder()/fixPropOrder() on the same object ('no index keys' shortcuts are only valid on an up-to-date counter); R-PROPCOUNTERS - in _delete each of lastSortedPropLen/idxPropCount is decremented under the comparison of the removed position with that very counter and under no comparison with the smaller one. " +
-			"R-KEYKINDAGREE: (*Object).setStr / setIdx / setSym call the same functions modulo key kind, invoke the same interface methods and read the same fields of the property record. R-COWNAMES: every in-place element write into a slice obtained from baseObject.propNames is control-dependent on !namesMarkedForCopy, or follows a copy-on-write branch (marker tested, fresh array installed), or is in the audited table - an enumeration in progress shares that backing array. R-ELEMCOUNT / R-TRUNCAGREE / R-RAWRESIZE (see C07) decide the array side of 'a non-configurable property cannot be deleted' and 'a non-extensible object gains no keys': the counters that let ArraySetLength skip the search for non-configurable elements are exact, the search covers what the cut removes, and in-place resizes respect extensible / writable length. R-KINDFLIP: in _defineOwnProperty (the one decision table behind defineProperty for every key kind and most object kinds) every descriptor test that controls an assignment of valueProperty.accessor is also consulted by the if-condition that compares the descriptor's kind with existing.accessor (otherwise a descriptor satisfying only that test converts a non-configurable property), and each flip clears the payload of the other kind on the same record.",
+			"R-KEYKINDAGREE: (*Object).setStr / setIdx / setSym call the same functions modulo key kind, invoke the same interface methods and read the same fields of the property record. R-COWNAMES: every in-place element write into a slice obtained from baseObject.propNames is control-dependent on !namesMarkedForCopy, or follows a copy-on-write branch (marker tested, fresh array installed), or is in the audited table - an enumeration in progress shares that backing array. R-ELEMCOUNT / R-TRUNCAGREE / R-RAWRESIZE (see C07) decide the array side of 'a non-configurable property cannot be deleted' and 'a non-extensible object gains no keys': the counters that let ArraySetLength skip the search for non-configurable elements are exact, the search covers what the cut removes, and in-place resizes respect extensible / writable length. R-KINDFLIP: in _defineOwnProperty (the one decision table behind defineProperty for every key kind and most object kinds) every descriptor test that controls an assignment of valueProperty.accessor is also consulted by the if-condition that compares the descriptor's kind with existing.accessor (otherwise a descriptor satisfying only that test converts a non-configurable property), and each flip clears the payload of the other kind on the same record. R-LAZYNAMES ('lazily-templated built-ins and global object'): a templatedObject's propNames is nil (= the template's names) until materialisePropNames(); every statically resolved call of a baseObject method that may write propNames, made on the baseObject embedded in a templated object, is preceded on every path by materialisePropNames()/materialiseProps() on the same object or lies behind a test that the key exists; and no baseObject method that tests key presence in `values` by a comma-ok lookup is called on a templated object (which keeps deleted template properties as keys with a nil value).",
 		Technique:  "control dependence on a receiver-identity test (SSA); method-set matrix closure over go/types with virtual-dispatch discharge; dominance of a refresh call; controlling-condition sets of counter decrements",
 		DesignRef:  "DESIGN.md section 4, C04",
 		NotCovered: "the decision table of ValidateAndApplyPropertyDescriptor (_defineOwnProperty), the sorting done by fixPropOrder itself, freeze/seal outcomes, ArraySetLength, per-kind exotic semantics: value-level; R-EXTENSIBLE is not armed",
